@@ -103,6 +103,20 @@ func ordOwn(w *World, r *EngineResult) {
 						if !ok || len(cur.Preds) != 1 || !l.body[d] {
 							continue
 						}
+						// the comparison may live in a predicate that receives the target
+						{
+							cond, neg := iff.Cond, false
+							if u, ok := cond.(*ssa.UnOp); ok && u.Op == token.NOT {
+								cond, neg = u.X, true
+							}
+							if pc, ok := cond.(*ssa.Call); ok {
+								if cal := pc.Call.StaticCallee(); cal != nil && cal.Pkg != nil && inModule(cal.Pkg.Pkg.Path()) && sameFilePredicate(cal, pc, target, fileNameOf) {
+									if (!neg && d.Succs[0] == cur) || (neg && d.Succs[1] == cur) {
+										guarded = true
+									}
+								}
+							}
+						}
 						bo, ok := iff.Cond.(*ssa.BinOp)
 						if !ok || (bo.Op != token.EQL && bo.Op != token.NEQ) {
 							continue
@@ -472,4 +486,41 @@ func instrsBetween(a, b ssa.Instruction) ([]ssa.Instruction, bool) {
 		out = append(out, ins)
 	}
 	return out, true
+}
+
+
+// sameFilePredicate: cal returns, on every return, the equality of two file names of which
+// exactly one hangs on the parameter that receives target at the call pc.
+func sameFilePredicate(cal *ssa.Function, pc *ssa.Call, target ssa.Value, fileNameOf func(ssa.Value) (ssa.Value, bool)) bool {
+	if len(cal.Blocks) == 0 || cal.Signature.Results().Len() != 1 {
+		return false
+	}
+	ti := -1
+	for i, a := range pc.Call.Args {
+		if a == target {
+			ti = i
+		}
+	}
+	if ti < 0 || ti >= len(cal.Params) {
+		return false
+	}
+	tp := ssa.Value(cal.Params[ti])
+	n := 0
+	for _, b := range cal.Blocks {
+		rt, ok := b.Instrs[len(b.Instrs)-1].(*ssa.Return)
+		if !ok {
+			continue
+		}
+		n++
+		bo, ok := rt.Results[0].(*ssa.BinOp)
+		if !ok || bo.Op != token.EQL {
+			return false
+		}
+		rx, okx := fileNameOf(bo.X)
+		ry, oky := fileNameOf(bo.Y)
+		if !okx || !oky || (rx == tp) == (ry == tp) {
+			return false
+		}
+	}
+	return n > 0
 }
